@@ -3,7 +3,7 @@
    argument evaluation, documented short circuits); the theorems below are its structural guarantees; that the
    interpreter computes what the reference computes is decided by the correspondence check (see DESIGN.md: partial). *)
 From Coq Require Import List ZArith NArith String Bool.
-From Xr Require Import Base.Res Base.Show Lang.Syntax Lang.Eval Lang.EvalProofs.
+From Xr Require Import Base.Res Base.Show Lang.Syntax Lang.Eval Lang.EvalProofs Lang.Prec Lang.PrecInst Extracted.Ops.
 Import ListNotations.
 Open Scope string_scope.
 
@@ -34,7 +34,35 @@ Example C02_order_and_short_circuit :
   run_program 100 nolimits prog ["main"] = "3|1\n2|1".
 Proof. vm_compute. reflexivity. Qed.
 
+(* ---- operators with their precedence and associativity.
+   The operator table (levels, associativity, token -> function alias, unary operators) is EXTRACTED from src/parser.rs and
+   src/xray.pest on every run (Extracted/Ops.v); it must be the table the reference evaluator and the generators assume ... *)
+Theorem C02_operator_table : x_levels = model_levels /\ x_unary = model_unary.
+Proof. split; reflexivity. Qed.
+(* ... every level has one associativity, no token is listed twice, and the book's list (also extracted: binary operators
+   "in the order they are resolved", unary operators) agrees with it: same tokens, same aliases, level never increasing *)
+Theorem C02_operator_table_wellformed :
+  levels_uniform = true /\ nodupb (map tok_of (List.concat x_levels)) = true /\ book_agrees = true.
+Proof. vm_compute. repeat split; reflexivity. Qed.
+(* pest's precedence climber, run with that table on ANY sequence  operand (operator operand)*  - any length, any operators -
+   never runs out of its 2n+1 fuel, consumes the whole sequence, keeps operands and operators in order, and groups them so
+   that at every node the left operand's root does not bind into the node's right (looser, or equal and left-associative
+   seen from the right) and the right operand's root does (tighter, or equal level and right-associative) *)
+Theorem C02_climber_groups_by_table : forall a rest,
+  exists t, parse string string xprec xright a rest = Some (t, []) /\
+            first string string t = a /\ toks string string t = rest /\ ok string string xprec xright t.
+Proof. exact (climber_sound string string xprec xright). Qed.
+Example C02_precedence_example :
+  group "1" [("+", "2"); ("*", "3"); ("**", "2"); ("**", "2"); ("-", "4"); ("<", "5"); ("&&", "t"); ("||", "u")]
+  = "(((((1 + (2 * (3 ** (2 ** 2)))) - 4) < 5) && t) || u)" /\
+  group_calls "1" [("-", "2"); ("%", "3"); ("|", "4")] = "bit_or(sub(1, mod(2, 3)), 4)".
+Proof. vm_compute. split; reflexivity. Qed.
+
 Print Assumptions C02_strict_all_values.
 Print Assumptions C02_leftmost_failure.
 Print Assumptions C02_operator_is_function.
 Print Assumptions C02_order_and_short_circuit.
+Print Assumptions C02_operator_table.
+Print Assumptions C02_operator_table_wellformed.
+Print Assumptions C02_climber_groups_by_table.
+Print Assumptions C02_precedence_example.
